@@ -148,7 +148,7 @@ def run(tier):
     common.write_ndjson(inp, reqs)
     rc, txt, _ = common.run([h, "calls", inp, outp], timeout=600)
     if rc != 0:
-        raise Infra("harness calls failed: " + txt[-2000:])
+        raise common.harness_failure(txt, "harness calls")
     res = common.read_ndjson(outp)
     if len(res) != len(reqs):
         raise Infra("harness returned %d results for %d calls" % (len(res), len(reqs)))
